@@ -521,8 +521,8 @@ fn err_class(e: &str) -> String {
 }
 
 /// Load the bytes as a voice; Ok / Err / panic + heap usage.
-pub fn load_outcome(env: &Env, bytes: &[u8]) -> (Outcome, Option<crate::ctx::PanicRecord>) {
-    let p = env.tmp_dir.join("fault.htsvoice");
+pub fn load_outcome(dir: &std::path::Path, bytes: &[u8]) -> (Outcome, Option<crate::ctx::PanicRecord>) {
+    let p = dir.join("fault.htsvoice");
     std::fs::write(&p, bytes).expect("write fault file");
     let base = alloc::begin();
     let r = guard(|| Engine::load(&[&p]));
@@ -534,8 +534,8 @@ pub fn load_outcome(env: &Env, bytes: &[u8]) -> (Outcome, Option<crate::ctx::Pan
     }
 }
 
-fn judge(ctx: &mut Ctx, env: &Env, f: &Fault, clean_kind: &str, voice: &str) {
-    let (o, panic) = load_outcome(env, &f.bytes);
+fn judge(ctx: &mut Ctx, dir: &std::path::Path, f: &Fault, clean_kind: &str, voice: &str) {
+    let (o, panic) = load_outcome(dir, &f.bytes);
     ctx.count("faults_loaded", 1.0);
     ctx.rep.evaluations += 1;
     ctx.count(&format!("class[{}]", f.class), 1.0);
@@ -588,7 +588,38 @@ fn set_rlimit() {
     }
 }
 
+/// interpreter-sized campaign (Miri): a tiny generated voice, every 9th systematic fault
+fn miri_faults(ctx: &mut Ctx) {
+    let pool = crate::voicegen::QuestionPool::builtin();
+    let mut rng = Rng::new(5);
+    let mut o = VoiceOpts::tiny();
+    o.max_depth = 2;
+    o.nstreams = 3;
+    o.lpf_len = 3;
+    let spec = voicegen::generate(&o, &pool, &mut rng);
+    let bytes = voicegen::write(&spec);
+    let mut faults = byte_faults(&bytes, &mut rng, 6, 9);
+    faults.extend(text_faults(&spec, &mut rng, 5));
+    let dir = crate::env::tmp_base().join(format!("jbv-miri-c18-{}-{}", std::process::id(), ctx.shard));
+    std::fs::create_dir_all(&dir).expect("tmp dir");
+    let (clean, _) = load_outcome(&dir, &bytes);
+    if clean.kind != "Ok" {
+        ctx.violation("clean-generated-voice-does-not-load", J::obj().set("result", clean.kind));
+        return;
+    }
+    let n = faults.len();
+    ctx.run_cases("miri-faults", n, true, |ctx, _rng, idx| {
+        ctx.rep.evaluations -= 1;
+        judge(ctx, &dir, &faults[idx], "Ok", "tiny");
+    });
+    let _ = std::fs::remove_dir_all(&dir);
+}
+
 pub fn run(ctx: &mut Ctx) {
+    if std::env::var("JBV_MIRI").is_ok() {
+        miri_faults(ctx);
+        return;
+    }
     set_rlimit();
     let env = Env::new(ctx);
     let q = ctx.quick();
@@ -602,7 +633,7 @@ pub fn run(ctx: &mut Ctx) {
         }
         let spec = voicegen::generate(&o, &env.pool, rng);
         let bytes = voicegen::write(&spec);
-        let (clean, _) = load_outcome(&env, &bytes);
+        let (clean, _) = load_outcome(&env.tmp_dir, &bytes);
         if clean.kind != "Ok" {
             ctx.violation("clean-generated-voice-does-not-load", J::obj().set("opts", o.describe()).set("result", clean.kind));
             return;
@@ -631,7 +662,7 @@ pub fn run(ctx: &mut Ctx) {
         }
         ctx.count("fault_instances_generated", faults.len() as f64);
         for f in &faults {
-            judge(ctx, &env, f, "Ok", &voice);
+            judge(ctx, &env.tmp_dir, f, "Ok", &voice);
         }
     });
 
@@ -645,7 +676,7 @@ pub fn run(ctx: &mut Ctx) {
         let lo = (idx * per).min(all.len());
         let hi = ((idx + 1) * per).min(all.len());
         for f in &all[lo..hi] {
-            judge(ctx, &env, f, "Ok", "bundled");
+            judge(ctx, &env.tmp_dir, f, "Ok", "bundled");
         }
         ctx.count("fault_instances_generated", (hi - lo) as f64);
     });
@@ -666,6 +697,6 @@ pub fn run(ctx: &mut Ctx) {
             bytes[..n].copy_from_slice(&head[..n]);
         }
         let f = Fault { class: "garbage", section: "ALL".into(), descr: format!("{} random bytes", len), bytes };
-        judge(ctx, &env, &f, "Ok", "none");
+        judge(ctx, &env.tmp_dir, &f, "Ok", "none");
     });
 }
